@@ -11,6 +11,10 @@ TEXT = {
          "every descendant's relative pose and a common path length; child operations are local; setters modelled and tied by correspondence + oracle (theorem pending)",
          "equal-path-length hypothesis as in the property; scipy Rotation assumed a group action; float effects observed by oracle (1e-8)",
          "Lean 4 theorems over a group acting on an additive group (refinement of the recursive move/_rotate to 'same rigid motion for all members'); differential correspondence on exact data"),
+ "C11": ("proof (partial: acyclicity clause not yet proved): every operation of the tree-editing API, accepted or rejected, preserves "
+         "parent<->children consistency, uniqueness, and the typed views as ordered partitions, hence every reachable state is consistent",
+         "model looks holders up through _parent (code: DFS over children) - equal under the invariant; copy() under C18; acyclicity by oracle",
+         "Lean 4 invariant by induction over operation histories on a hand-written state-machine model; differential correspondence incl. rejected calls; invariant oracle on real objects"),
 }
 props = [json.loads(l) for l in open("properties.jsonl")]
 checks = []
